@@ -208,7 +208,9 @@ impl Monitor for C12 {
                     }
                     st.highest = st.highest.max(end);
                     if let Some(rpn) = st.reset_pn {
-                        if p.pn > rpn {
+                        // frames are visited in packet order and `reset_pn` is set when the RESET_STREAM frame is
+                        // reached: equality means this frame follows it inside the same packet
+                        if p.pn >= rpn {
                             // the bare "stream opened" notification (offset 0, no data, no
                             // FIN) is told apart from frames carrying data or a FIN
                             let sig = if data.is_empty() && *offset == 0 && !*fin {
@@ -286,7 +288,9 @@ impl Monitor for C12 {
                 Frame::StreamDataBlocked { id, .. } => {
                     let st = c.streams.entry(*id).or_default();
                     if let Some(rpn) = st.reset_pn {
-                        if p.pn > rpn {
+                        // frames are visited in packet order and `reset_pn` is set when the RESET_STREAM frame is
+                        // reached: equality means this frame follows it inside the same packet
+                        if p.pn >= rpn {
                             cx.violate(
                                 "C12",
                                 "blocked-after-reset",
